@@ -25,6 +25,7 @@ let run () =
            let p = if period = N0 then n_of_int 1 else period in
            let bound = N.add k p in
            let ops = if String.length ops > 0 && ops.[0] = 'E' then String.sub ops 1 (String.length ops - 1) else ops in
+           let ops = if String.length ops > 0 && ops.[0] = 'F' then String.sub ops 1 (String.length ops - 1) else ops in
            let ops = if String.length ops > 0 && ops.[0] = 'A' then String.sub ops 1 (String.length ops - 1) else ops in
            let pre = if String.length ops > 0 && (ops.[0] = 'S' || ops.[0] = 'P') then 1 else 0 in
            let st = ref (Some ((N.add (n_of_string initial) (n_of_int pre), n_of_string c0), ds)) in
@@ -33,6 +34,23 @@ let run () =
            let started_within = N.leb (n_of_string initial) k in
            List.iter (fun tok ->
                match (match String.split_on_char ':' tok with
+                   | ["ERR"; cnt] ->
+                     (* F cases: the write failed (temp cleanup error) AFTER its maintenance pruned the
+                        directory: it must have been a firing write, nothing was inserted *)
+                     (match !st with
+                      | None -> ()
+                      | Some s ->
+                        (match write_step k w s false with
+                         | None -> st := None
+                         | Some (((count', c'), ds'), f) ->
+                           if not f then ok := false;
+                           any_fired := true;
+                           if string_of_n count' <> cnt then ok := false;
+                           if started_within && N.ltb bound (n_of_string cnt) then begin
+                             incr bound_viol; Printf.printf "BOUND %s\n" line end;
+                           prev := n_of_string cnt;
+                           st := Some ((count', c'), ds')));
+                     ["skip"]
                    | [e; cnt; present] ->
                      (* maintenance runs BEFORE the write's own insertion: the key just written is there *)
                      if present = "0" then begin incr bound_viol; Printf.printf "WINDOW %s\n" line end;
@@ -60,6 +78,7 @@ let run () =
                          incr bound_viol; Printf.printf "WINDOW %s\n" line end;
                        prev := n_of_string cnt;
                        st := Some ((count', c'), ds')))
+               | ["skip"] -> ()
                | _ -> ok := false) obs;
            if !any_fired then incr fired;
            if not (Hashtbl.mem seen lhs) then begin
